@@ -594,7 +594,15 @@ type RegexInfo struct {
 func (x *Exec) globalPtr(g *ssa.Global) *Val {
 	et := g.Type().Underlying().(*types.Pointer).Elem()
 	if _, isStruct := et.Underlying().(*types.Struct); isStruct {
-		unsupportedf("address of struct global %s", g.Name())
+		// a struct-typed package variable: a pre-existing object with unknown (but stable) field values
+		key := g.Pkg.Pkg.Path() + "." + g.Name()
+		if v, ok := x.job.globals["&"+key]; ok {
+			return v
+		}
+		x.job.nglob++
+		v := &Val{T: IntLit(int64(500 + x.job.nglob)), Typ: g.Type()}
+		x.job.globals["&"+key] = v
+		return v
 	}
 	return &Val{Typ: g.Type(), Ptr: &Pointer{kind: pkCell, ref: IntLit(1), objT: et, cell: "glob:" + g.Pkg.Pkg.Path() + "." + g.Name()}}
 }
